@@ -71,6 +71,13 @@ func (t *toks) next() string {
 	return t.f[t.i-1]
 }
 func (t *toks) int() int { return atoi(t.next()) }
+func (t *toks) u64() uint64 {
+	v, err := strconv.ParseUint(t.next(), 10, 64)
+	if err != nil {
+		fatal("bad unsigned number: %v", err)
+	}
+	return v
+}
 
 // str reads "<len> b1 ... blen".
 func (t *toks) str() string {
